@@ -383,6 +383,10 @@ func (m *SrvMonitor) Step(trx int64, frame []byte, obs Obs, op string) {
 						}
 						m.fail("C01", "double-lease:"+kind, "an address was acknowledged while another client holds an unexpired "+kind+" for it",
 							fmt.Sprintf("ACK %s to %s at %d; %s holds it since %d for %ds", rp.Yiaddr, id, rp.At, g.id, g.sent, g.ttl/1e9))
+						if g.ack { // C05's clause "the address stays that client's until the advertised lease time has elapsed" fails on the same history
+							m.fail("C05", "lease-given-away", "an acknowledged address was acknowledged to another client before the advertised lease time had elapsed",
+								fmt.Sprintf("ACK %s to %s at %d; %s holds it since %d for %ds", rp.Yiaddr, id, rp.At, g.id, g.sent, g.ttl/1e9))
+						}
 					}
 				}
 			}
